@@ -193,13 +193,7 @@ def decode_json_document(content, document):
     for bundle_id, bundle_content in bundles.items():
         bundle = ProvBundle(document=document)
         decode_json_container(bundle_content, bundle)
-        # bundle identifiers are keys of the top-level object: they are
-        # qualified names in the scope of the document (the bundle's own
-        # declarations are only a fall-back)
-        bundle_identifier = document.valid_qualified_name(
-            bundle_id
-        ) or bundle.valid_qualified_name(bundle_id)
-        document.add_bundle(bundle, bundle_identifier)
+        document.add_bundle(bundle, bundle.valid_qualified_name(bundle_id))
 
 
 def decode_json_container(jc, bundle):
